@@ -10,6 +10,7 @@ package main
 
 import (
 	"fmt"
+	"github.com/makiuchi-d/gozxing"
 	"sort"
 	"strings"
 
@@ -573,6 +574,78 @@ func runSizes() {
 	})
 }
 
+// runReuse: per symbology ONE writer object and ONE reader object per reader kind are driven
+// through a whole sequence of contents (valid, refused, short, long, in a fixed order, each read
+// preceded by a failing decoy read on the same reader object); every result must be what fresh
+// objects give. Histories of calls on one instance are thereby part of the explored space.
+func runReuse() {
+	type seq struct {
+		sym      string
+		contents []string
+		readers  []string
+	}
+	var seqs []seq
+	add := func(sym string, readers []string, lists ...[]string) {
+		var c []string
+		for _, l := range lists {
+			c = append(c, l...)
+		}
+		// forward, then backward: every content follows two different predecessors
+		n := len(c)
+		for i := n - 1; i >= 0; i-- {
+			c = append(c, c[i])
+		}
+		seqs = append(seqs, seq{sym, c, readers})
+	}
+	digits := func(n, count int) []string {
+		var o []string
+		for i := 0; i < count; i++ {
+			o = append(o, dig(i*7919+i*i*31, n))
+		}
+		return o
+	}
+	k := chk.Pick(60, 400)
+	add("ean13", []string{"own", "multi"}, digits(12, k), []string{"5901234123457", "5901234123450", "59012341234"})
+	add("ean8", []string{"own", "multi"}, digits(7, k), []string{"96385074", "96385070", "963850"})
+	add("upca", []string{"own", "ean13"}, digits(11, k), []string{"036000291452", "036000291450"})
+	add("upce", []string{"own"}, digits(6, k))
+	add("itf", []string{"own"}, digits(6, k/2), digits(14, k/4), digits(30, k/8), []string{"123", "12345678901234567890"})
+	add("code39", []string{"own"}, []string{"A", "CODE 39", "+A", "a", "abc", "-. $/+%", "0123456789", "A*", "é"}, lengthFamily(1, chk.Pick(20, 79)))
+	add("code93", []string{"own"}, []string{"A", "a", "Code 93", "\x01", "%", "+", "é"}, lengthFamily(1, chk.Pick(20, 79)))
+	add("code128", []string{"own"}, []string{"A", "12", "123", "a1234b", "\x01`", "AB\x01cd", "1234567890123", "é", "ñ12"}, lengthFamily(1, chk.Pick(20, 79)))
+	add("codabar", []string{"own", "startend"}, []string{"A12B", "12", "T1N", "a-$b", "C:/.+D", "A1", "1"})
+	for i := range seqs {
+		if seqs[i].sym == "upce" {
+			for j, c := range seqs[i].contents {
+				seqs[i].contents[j] = "0" + c
+			}
+		}
+	}
+	chk.Range(fmt.Sprintf("reuse: %d sequences (one per symbology), each driven through ONE writer object and ONE reader object per reader kind, forward then backward, every read preceded by a failing decoy read on the same object", len(seqs)), len(seqs),
+		func(i int) string { return "reuse " + seqs[i].sym },
+		func(l *mc.Local, i int) {
+			q := seqs[i]
+			in := &instances{w: map[string]gozxing.Writer{}, r: map[string]gozxing.Reader{}}
+			var before []string
+			for _, c := range q.contents {
+				for _, r := range q.readers {
+					margin := -1
+					if q.sym == "upce" {
+						margin = 14
+					}
+					rc := rcase{Sym: q.sym, Content: []byte(c), Margin: margin, Reader: r, Path: "image", inst: in}
+					if len(before) > 3 {
+						rc.Seq = append([]string{}, before[len(before)-3:]...)
+					} else {
+						rc.Seq = append([]string{}, before...)
+					}
+					exec(l, rc.finish())
+				}
+				before = append(before, c)
+			}
+		})
+}
+
 func main() {
 	chk = mc.New("C03", "exploration")
 	chk.Rule = "per symbology, complete enumeration of the stated content families (exhaustive digit spaces in the thorough tier, orthogonal stratified families in the quick tier), each written by the real writer, rendered, and read back through the image path; non-trivial = distinct (symbology, content, reader, size/margin/code-set) cases that were written AND read back as canonical(c), plus distinct refused contents; in the digit sweeps one per enumerated number (thorough tier, to bound memory: one per block of 10 UPC-E / 100 EAN-8 consecutive numbers; the (position, digit, check digit) class sets are complete in both tiers)"
@@ -605,6 +678,7 @@ func main() {
 	runCode128()
 	runCodabar()
 	runRejections()
+	runReuse()
 	chk.Sample("round trip", mk("upce", "0425261", "own"))
 	chk.Sample("round trip", mk("code128", "A12345\x01b", "own"))
 	chk.Sample("rejection", mk("ean13", "5901234123450", "own"))
